@@ -121,12 +121,18 @@ Proof.
       rewrite join_cons in E. destruct q; [contradiction|discriminate].
 Qed.
 
-Lemma join_app_trailing c init : init <> [] -> join [c] (init ++ [[]]) = join [c] init ++ [c].
+Lemma join_app (sep : str) (a b : list str) :
+  a <> [] -> b <> [] -> join sep (a ++ b) = join sep a ++ sep ++ join sep b.
 Proof.
-  induction init as [|p init IH]; intros Hn; [contradiction|]. destruct init as [|q r].
-  - cbn [app join]. reflexivity.
-  - cbn [app] in *. rewrite !join_cons. rewrite IH; [|discriminate]. now rewrite <- !app_assoc.
+  induction a as [|p a IH]; intros Ha Hb; [contradiction|]. destruct a as [|q r].
+  - destruct b as [|b0 b1]; [contradiction|]. reflexivity.
+  - change ((p :: q :: r) ++ b) with (p :: q :: (r ++ b)). rewrite !join_cons.
+    change (q :: r ++ b) with ((q :: r) ++ b). rewrite IH by (discriminate || assumption).
+    now rewrite <- !app_assoc.
 Qed.
+
+Lemma join_app_trailing c init : init <> [] -> join [c] (init ++ [[]]) = join [c] init ++ [c].
+Proof. intros Hn. rewrite join_app by (assumption || discriminate). cbn [join]. now rewrite app_nil_r. Qed.
 
 (* ---------- flatten_path is the identity on flat paths ---------- *)
 Lemma flatten_path_parts parts :
@@ -146,7 +152,7 @@ Proof.
       destruct parts as [|p ps]; [contradiction|]. cbn [is_nil]. cbv iota.
       rewrite join_cons. reflexivity.
     + subst parts. rewrite flatten_parts_app, (flatten_parts_ok init [] Hok), app_nil_r.
-      cbn [flatten_parts]. replace (str_eqb [] s_dot || (true && is_nil [])) with true by reflexivity. cbv iota.
+      cbn [flatten_parts]. replace (str_eqb [] s_dot || (true && @is_nil N [])) with true by reflexivity. cbv iota.
       rewrite rev_involutive.
       destruct init as [|p ps].
       * cbn [app] in Er. cbn [join] in Er. discriminate.
@@ -204,9 +210,12 @@ Qed.
 
 Lemma flatten_path_head fs p : exists r, flatten_path fs p = 47 :: r.
 Proof.
-  unfold flatten_path. destruct (is_nil p || str_eqb p s_slash); [now exists []|].
-  match goal with |- context [join s_slash ([] :: ?l)] => destruct l as [|q qs] end.
-  - now exists [].
+  unfold flatten_path. destruct (is_nil p || str_eqb p s_slash); [exists []; reflexivity|].
+  match goal with |- context [if ?c || is_nil ?np then _ else _] => destruct c; destruct np as [|q qs] eqn:E end;
+    cbn [orb is_nil app].
+  - exists []. reflexivity.
+  - destruct (qs ++ [[]]) eqn:E2; [destruct qs; discriminate|]. rewrite !join_cons. eexists. reflexivity.
+  - exists []. reflexivity.
   - rewrite join_cons. eexists. reflexivity.
 Qed.
 
@@ -222,32 +231,41 @@ Proof.
   induction 1 as [|x y a b [H47 H46] HF IH]; [repeat constructor|].
   cbn [split_on]. destruct (x =? 47) eqn:Ex; destruct (y =? 47) eqn:Ey; try lia.
   - constructor; [constructor|exact IH].
-  - inversion IH as [|p q ps qs Hpq Hps E1 E2].
-    + pose proof (split_on_nonempty 47 a) as Hn. rewrite <- E1 in Hn. contradiction.
-    + constructor; [constructor; [split; assumption|exact Hpq]|exact Hps].
+  - pose proof (split_on_nonempty 47 a) as Hna. pose proof (split_on_nonempty 47 b) as Hnb.
+    destruct (split_on 47 a) as [|p ps]; [contradiction|]. destruct (split_on 47 b) as [|q qs]; [contradiction|].
+    inversion IH; subst. constructor; [constructor; [split; assumption|assumption]|assumption].
 Qed.
 
 Lemma is_nil_rel {A B} (R : A -> B -> Prop) p q : Forall2 R p q -> is_nil p = is_nil q.
 Proof. destruct 1; reflexivity. Qed.
 
+Lemma eq_dot_rel p q : Forall2 same_cls p q -> str_eqb p s_dot = str_eqb q s_dot.
+Proof.
+  intros H. destruct H as [|x y p q [_ Hx] H]; [reflexivity|]. destruct H as [|x2 y2 p q _ H].
+  - unfold s_dot. cbn [str_eqb]. destruct (x =? 46) eqn:E1; destruct (y =? 46) eqn:E2; try reflexivity; lia.
+  - unfold s_dot. cbn [str_eqb]. now rewrite !andb_false_r.
+Qed.
+
+Lemma eq_dotdot_rel p q : Forall2 same_cls p q -> str_eqb p s_dotdot = str_eqb q s_dotdot.
+Proof.
+  intros H. destruct H as [|x y p q [_ Hx] H]; [reflexivity|]. destruct H as [|x2 y2 p q [_ Hx2] H]; [unfold s_dotdot; cbn [str_eqb]; now rewrite !andb_false_r|].
+  destruct H as [|x3 y3 p q _ H].
+  - unfold s_dotdot. cbn [str_eqb].
+    destruct (x =? 46) eqn:E1; destruct (y =? 46) eqn:E2; destruct (x2 =? 46) eqn:E3; destruct (y2 =? 46) eqn:E4;
+      try reflexivity; lia.
+  - unfold s_dotdot. cbn [str_eqb]. now rewrite !andb_false_r.
+Qed.
+
 Lemma seg_ok_rel p q : Forall2 same_cls p q -> seg_ok p = seg_ok q.
 Proof.
-  intros H. unfold seg_ok. rewrite (is_nil_rel _ _ _ H). f_equal; [f_equal|]; f_equal.
-  - destruct H as [|x y p q [_ Hx] H]; [reflexivity|]. destruct H as [|x2 y2 p q _ H].
-    + unfold s_dot. cbn [str_eqb]. rewrite !andb_true_r. destruct (x =? 46) eqn:E1; destruct (y =? 46) eqn:E2; lia.
-    + unfold s_dot. cbn [str_eqb]. now rewrite !andb_false_r.
-  - destruct H as [|x y p q [_ Hx] H]; [reflexivity|]. destruct H as [|x2 y2 p q [_ Hx2] H]; [reflexivity|].
-    destruct H as [|x3 y3 p q _ H].
-    + unfold s_dotdot. cbn [str_eqb]. rewrite !andb_true_r.
-      destruct (x =? 46) eqn:E1; destruct (y =? 46) eqn:E2; destruct (x2 =? 46) eqn:E3; destruct (y2 =? 46) eqn:E4; lia.
-    + unfold s_dotdot. cbn [str_eqb]. now rewrite !andb_false_r.
+  intros H. unfold seg_ok. now rewrite (is_nil_rel _ _ _ H), (eq_dot_rel _ _ H), (eq_dotdot_rel _ _ H).
 Qed.
 
 Lemma segs_flat_rel l m : Forall2 (Forall2 same_cls) l m -> segs_flat l = segs_flat m.
 Proof.
   induction 1 as [|p q l m Hpq Hlm IH]; [reflexivity|]. destruct Hlm as [|p2 q2 l m Hpq2 Hlm].
   - cbn [segs_flat]. now rewrite (is_nil_rel _ _ _ Hpq), (seg_ok_rel _ _ Hpq).
-  - rewrite !segs_flat_cons2, (seg_ok_rel _ _ Hpq), IH. reflexivity.
+  - rewrite !segs_flat_cons2, (seg_ok_rel _ _ Hpq). f_equal. exact IH.
 Qed.
 
 Lemma is_flat_rel a b : Forall2 same_cls a b -> is_flat a = is_flat b.
@@ -262,9 +280,13 @@ Proof.
 Qed.
 
 (* uppercase_percent_encoding moves no slash and no dot *)
+Lemma Forall2_weaken {A B} (R S : A -> B -> Prop) l m :
+  (forall x y, R x y -> S x y) -> Forall2 R l m -> Forall2 S l m.
+Proof. intros H. induction 1; constructor; auto. Qed.
+
 Lemma upper_pe_same_cls s : Forall2 same_cls s (upper_pe s).
 Proof.
-  eapply Forall2_impl; [|apply upper_pe_map_rel]. intros x y [->|[Hh ->]]; [split; tauto|].
+  eapply Forall2_weaken; [|apply upper_pe_map_rel]. intros x y [->|[Hh ->]]; [split; tauto|].
   unfold is_hex in Hh. unfold upper_c, same_cls. destruct ((97 <=? x) && (x <=? 122)) eqn:E; lia.
 Qed.
 
@@ -332,10 +354,10 @@ Proof.
     apply flat_map_g_dot_hd in E; [|assumption|lia]. destruct E as [-> E]. f_equal. now apply Hdot. }
   rewrite Hnil. f_equal; [f_equal|]; f_equal.
   - destruct (str_eqb p s_dot) eqn:E.
-    + apply str_eqb_eq in E. subst. cbn [flat_map]. rewrite g_dot. reflexivity.
+    + apply str_eqb_eq in E. subst. unfold s_dotdot, s_dot. cbn [flat_map]. rewrite g_dot. reflexivity.
     + apply str_eqb_neq. intros E2. apply str_eqb_neq in E. apply E. now apply Hdot.
   - destruct (str_eqb p s_dotdot) eqn:E.
-    + apply str_eqb_eq in E. subst. cbn [flat_map]. rewrite g_dot. reflexivity.
+    + apply str_eqb_eq in E. subst. unfold s_dotdot, s_dot. cbn [flat_map]. rewrite g_dot. reflexivity.
     + apply str_eqb_neq. intros E2. apply str_eqb_neq in E. apply E. now apply Hdd.
 Qed.
 
@@ -348,8 +370,8 @@ Proof.
   - cbn [map segs_flat]. rewrite seg_ok_flat_map by assumption. f_equal.
     destruct p as [|c p]; [reflexivity|]. destruct (flat_map g (c :: p)) eqn:E; [|reflexivity].
     apply flat_map_g_nil in E; [discriminate|assumption].
-  - cbn [map]. rewrite !segs_flat_cons2. cbn [map] in IH. rewrite IH by assumption.
-    now rewrite seg_ok_flat_map by assumption.
+  - cbn [map]. rewrite !segs_flat_cons2. rewrite seg_ok_flat_map by assumption. f_equal.
+    apply IH; assumption.
 Qed.
 
 Lemma Forall_split_on (P : N -> Prop) c s : Forall P s -> Forall (Forall P) (split_on c s).
